@@ -210,3 +210,31 @@ CHAR_CLASSES = ["\u3000", "\u00a0", "\u200b", "\u200d", "\u00ad", "\u2028", "\uf
 # noncharacters, NUL, the last code point
 ODD_CODEPOINTS = ["\udce9", "\ud800", "\ud83d\ude00", "\ufeff", "\ufffe", "\uffff", "\U0010ffff", "\x00", "\ufffd"]
 ODD_TEXTS = ["caf\udce9", "\ufeffab", "a\ufeffb", "x\ud83d\ude00y", "\ud800", "ab\ufeff", "\x00z", "q\uffff"]
+
+
+# environment variables that libraries commonly consult at import time or at run time (colour conventions, terminal type, locale)
+ENVIRONMENTS = [{"NO_COLOR": "1"}, {"NO_COLOR": ""}, {"TERM": "dumb"}, {"TERM": "rxvt"}, {"TERM": "rxvt-unicode-256color"}, {"TERM": "linux"},
+                {"TERM": "screen-256color"}, {"TERM": ""}, {"CLICOLOR": "0"}, {"CLICOLOR_FORCE": "1", "FORCE_COLOR": "1"}, {"COLORTERM": "truecolor"},
+                {"LC_ALL": "C", "LANG": "C"}, {"PYTHONOPTIMIZE": "1"}, {"COLUMNS": "1", "LINES": "1"}]
+
+
+def run_in_environment(module, function, extra_env, timeout=300):
+    """import `module` in a brand-new interpreter whose environment has `extra_env` set (TERM & co. are read when a library is first
+    imported) and call its zero-argument `function`, which returns a JSON-able list of (clause, inputs, detail) failures.
+    -> (ran, list or reason)"""
+    import json, subprocess, sys
+    here = os.path.dirname(os.path.dirname(os.path.abspath(__file__)))
+    env = dict(os.environ)
+    for k in ("NO_COLOR", "CLICOLOR", "CLICOLOR_FORCE", "FORCE_COLOR", "COLORTERM"):
+        env.pop(k, None)
+    env.update(extra_env)
+    env["PYTHONPATH"] = os.pathsep.join([here] + [p for p in sys.path if p])
+    code = f"import json, {module} as M; print('RESULT' + json.dumps(M.{function}()))"
+    try:
+        r = subprocess.run([sys.executable, "-c", code], env=env, capture_output=True, text=True, timeout=timeout)
+        line = [l for l in r.stdout.splitlines() if l.startswith("RESULT")]
+        if not line:
+            return False, (r.stderr or r.stdout)[-300:]
+        return True, json.loads(line[-1][6:])
+    except Exception as e:      # noqa: BLE001  (a child that cannot run is a harness matter, never a verdict)
+        return False, repr(e)
